@@ -94,7 +94,6 @@ type ObsC04 struct {
 	cloudSeen  int
 	Dangerous  bool // an unbind/resync/release/reload ran while a same-named replacement pod was live and bound
 	exempt     map[string]bool // pod uid + ip that a reload legitimately took away (configuration without the IP)
-	mixed      map[string]bool // keys that held IPs recorded with two different pod uids (stale pod-IP sync)
 }
 
 func (o *ObsC04) check(x *Exec) *vcore.Failure {
@@ -103,19 +102,6 @@ func (o *ObsC04) check(x *Exec) *vcore.Failure {
 		return nil
 	}
 	live := x.livePods()
-	if o.mixed == nil {
-		o.mixed = map[string]bool{}
-	}
-	uidOf := map[string]string{}
-	for _, f := range alloc {
-		if f.PodUid == "" || f.Key == "" {
-			continue
-		}
-		if u, ok := uidOf[f.Key]; ok && u != f.PodUid {
-			o.mixed[f.Key] = true
-		}
-		uidOf[f.Key] = f.PodUid
-	}
 	for _, p := range live {
 		for _, ip := range p.Payload {
 			if o.exempt == nil {
@@ -134,7 +120,7 @@ func (o *ObsC04) check(x *Exec) *vcore.Failure {
 				continue
 			}
 			f, ok := alloc[ip]
-			if !ok && o.mixed[p.Key] {
+			if !ok && x.MixedKeys[p.Key] {
 				return vcore.Failf("c04:released:stale_sync_mixed_uid", "live pod %s (uid %s) lost its IP %s after its key also held an IP "+
 					"re-allocated for an older incarnation by the pod-IP sync of a stale update event; resync released both", p.Name, p.UID, ip)
 			}
